@@ -172,8 +172,11 @@ def _static_branch(e):
     """resolve `if cfg!(..)` (literal condition) to the taken branch; returns the list of leaf exprs"""
     e = thir.peel(e)
     if isinstance(e, dict) and e.get("k") == "block":
-        if e.get("s"):
-            return [e]
+        # statements before the tail (other than tracing) are part of what the method does: an early `return`, another enqueueing call, ...
+        # each counts as an alternative of its own so that the caller sees "more than one thing happens here"
+        stmts = [x for x in e.get("s", []) if not (isinstance(x, dict) and (pathx.is_tracing(x) or (x.get("k") == "expr" and pathx.is_tracing(x.get("e")))))]
+        if stmts:
+            return stmts + _static_branch(e.get("e"))
         return _static_branch(e.get("e"))
     if isinstance(e, dict) and e.get("k") == "if":
         c = thir.peel(e["c"])
